@@ -354,12 +354,16 @@ impl PreferenceManager {
 
         let mut prefs = Preferences::default();
 
+        // the files that were read are only recorded once the new preferences are in place (at the end), otherwise a failure
+        //   along the way (e.g., in the user's file) leaves a record that says the system file is part of the current preferences
+        let mut new_sys_prefs_file = None;
+        let mut new_user_prefs_file = None;
         let mut system_prefs_file = self.rules_dir.to_path_buf();
         system_prefs_file.push("prefs.yaml");
         if is_file_shim(&system_prefs_file) {
             let defaults = DEFAULT_USER_PREFERENCES.with(|defaults| defaults.clone());
             prefs = Preferences::read_prefs_file(&system_prefs_file, defaults)?;
-            self.sys_prefs_file = Some( FileAndTime::new_with_time(system_prefs_file.clone()) );
+            new_sys_prefs_file = Some( FileAndTime::new_with_time(system_prefs_file.clone()) );
         } else {
             error!("MathCAT couldn't open file system preference file '{}'.\nUsing fallback defaults which may be inappropriate.",
                         system_prefs_file.to_str().unwrap());
@@ -374,7 +378,7 @@ impl PreferenceManager {
                 prefs = Preferences::read_prefs_file(&user_prefs_file_path_buf, prefs)?;
             }
             // set the time otherwise keeps needing to do updates
-            self.user_prefs_file = Some( FileAndTime::new_with_time(user_prefs_file_path_buf.clone()) );
+            new_user_prefs_file = Some( FileAndTime::new_with_time(user_prefs_file_path_buf.clone()) );
             user_prefs_file = Some(user_prefs_file_path_buf);
         }
 
@@ -393,6 +397,8 @@ impl PreferenceManager {
         }
         self.set_files_based_on_changes(&prefs)?;
         self.user_prefs = prefs;
+        self.sys_prefs_file = new_sys_prefs_file;
+        self.user_prefs_file = new_user_prefs_file;
 
         // set computed values for BLOCK_SEPARATORS and DECIMAL_SEPARATORS (a little messy about the language due immutable and mutable borrows)
         let language = self.user_prefs.prefs.get("Language").unwrap_or(&DEFAULT_LANG).clone();
